@@ -149,7 +149,12 @@ def random_scenarios(c, n, tr):
         small = [r for r in rules if value(r['N']) < 100]
         pending = []
         rid = 0
-        for _ in range(rng.randint(10, 40)):
+        storm_at = rng.randint(0, 12) if rng.random() < 0.2 else -1
+        for step in range(rng.randint(10, 40)):
+            if step == storm_at:
+                # free-running goroutines (real parallelism): gauge conserved, bound N + W-1, freed capacity reusable afterwards
+                s.append(dict(op='storm', res=rng.choice([1, 1, 2]), workers=rng.choice([2, 4, 8]), iters=rng.choice([50, 200, 400])))
+                continue
             if rng.random() < 0.6 or not pending:
                 rid += 1
                 b = rng.choice([0, 1, 1, 1, 1, 2, 2, 3, 3, 65535, 65536, 2 ** 31 - 1, 2 ** 31, 2 ** 31 + 1, M32 - 2, M32 - 1, M32])
